@@ -113,7 +113,10 @@ class VC(Task):
         args, kwargs = self.setup(I, st)
         pre = st.fork()
         clo = self.closure(I)
-        results = I.call_closure(st, clo, list(args), dict(kwargs))
+        if args == "locals":
+            results = I.run_body(st, clo, kwargs)
+        else:
+            results = I.call_closure(st, clo, list(args), dict(kwargs))
         outs = []
         from .interp import Raised
         for i, (s, v) in enumerate(results):
@@ -136,12 +139,12 @@ class VC(Task):
         except CheckerError as ex:
             return [Res(self.name + ".engine", "error", "pyvc", time.time() - t0, f"checker error: {ex}", self.kind)]
         # vacuity: the precondition is satisfiable and at least one path is reachable
-        r = check_sat(pre.pc, timeout, seed, use_cvc5=False)
+        r = check_sat(pre.pc, min(timeout, 3000), seed, use_cvc5=False)
         if r.status == "unsat":
             return [Res(self.name + ".requires_satisfiable", "error", r.backend, r.seconds, "contradictory precondition", self.kind)]
         reachable = 0
         for o in outs:
-            rr = check_sat(o.st.pc, min(timeout, 5000), seed, use_cvc5=False)
+            rr = check_sat(o.st.pc, 400, seed, use_cvc5=False)
             o.reach = rr.status
             if rr.status != "unsat":
                 reachable += 1
@@ -176,6 +179,11 @@ class VC(Task):
             r = check_sat(pc, timeout, seed, use_cvc5=False)
             if r.status == "unsat":
                 return Res(name, "discharged", r.backend, r.seconds, "path infeasible", self.kind)
+            if r.status == "unknown":
+                r2 = check_sat(pc, timeout, seed, use_cvc5=True)
+                if r2.status == "unsat":
+                    return Res(name, "discharged", r2.backend, r.seconds + r2.seconds, "path infeasible", self.kind)
+                return Res(name, "unknown", r.backend, r.seconds, "structural predicate false on a path whose feasibility is undecided", self.kind)
             wit = None
             if r.status == "sat" and pre is not None:
                 try:
